@@ -3,12 +3,13 @@ virtual clock, real DPEventLoop handlers, real local Writer and Reader)."""
 from pipeline import run_pipeline
 
 TIERS = {
-    "quick": dict(mc=[], random=dict(runs=800, events=40)),
-    "thorough": dict(mc=[], random=dict(runs=12000, events=60)),
+    "quick": dict(mc=[("MC_Discovery_q_lease.cfg", 8), ("MC_Discovery_q_match.cfg", 8)], replay_limit=6000, random=dict(runs=800, events=40)),
+    "thorough": dict(mc=[("MC_Discovery_t_lease.cfg", 12), ("MC_Discovery_t_match.cfg", 12), ("MC_Discovery_t_two.cfg", 12)], replay_limit=80000, random=dict(runs=12000, events=60)),
 }
 ASSUME = [
     "discovery events are applied as discovery.rs applies them (update DiscoveryDB, then the notification handler of DPEventLoop); the glue of discovery.rs itself is exercised by the system driver (C07)",
-    "virtual clock: leases end in x.5 s, ticks are whole seconds, so no event falls on the exact lease boundary",
+    "state space bounded by the constants in spec/MC_Discovery_*.cfg (participants, endpoints, lease values, clock steps, events per behaviour)",
+    "virtual clock: no event falls on the exact lease boundary (model: leases 1100 / 2500 ms, steps of 400 / 1000 ms; random runs: leases end in 50 ms, steps are multiples of 100 ms), because real time keeps running under the virtual offset",
     "remote endpoints keep the QoS they were announced with; endpoints are announced only by participants that are present",
 ]
 
